@@ -47,14 +47,17 @@ def classify(fn, value, single_flow):
     def run(dec):
         w = SplWorld(single_flow)
         it = Interp(w, dec)
-        this = Obj(SPL, {"m_flow_graph": Sym("flow_graph", "fg"), "m_slope_exp": None,
-                         "m_linear": None})
+        this = Obj(SPL, {"m_flow_graph": Sym("flow_graph", "fg"), "m_slope_exp": None})
         try:
             it.call_fn(fn, this, [value])
             threw = False
         except ThrowEx:
             threw = True
-        return it, (this.fields.get("m_linear"), threw, this.fields.get("m_slope_exp"))
+        # the classification is whatever the setter records besides the exponent itself (a bool
+        # today; an enumeration or two flags would do as well): compared between scenarios only
+        sig = tuple(sorted((k, repr(v)) for k, v in this.fields.items()
+                           if k not in ("m_flow_graph", "m_slope_exp")))
+        return it, (sig, threw, this.fields.get("m_slope_exp"))
 
     for made, res in explore(run):
         outs.append(res)
@@ -169,17 +172,21 @@ def run(db, chk):
         raise AnalysisBroken("spl_eroder::set_slope_exp not instantiated")
     n_sc = 0
     for fn in fns:
+        at_one = {o[0] for o in classify(fn, Interval(1.0, 1.0), True)}
+        if len(at_one) != 1 or not list(at_one)[0]:
+            raise AnalysisBroken("C13-L1: set_slope_exp(1) records no definite classification (%r)" % (at_one,))
+        at_one = list(at_one)[0]
         for label, val, expected in SCENARIOS:
             outs = classify(fn, val, True)
             n_sc += len(outs)
-            flags = sorted({str(o[0]) for o in outs})
-            ok = all(o[0] is expected for o in outs)
-            chk.ob("C13-L1", "%s -> linear flag %s (expected %s)" % (label, "/".join(flags), expected),
-                   ok, where=fn.ploc, function=fn.bn, construct="m_linear(%s)" % label,
+            flags = sorted({"linear" if o[0] == at_one else "non-linear" for o in outs})
+            ok = all((o[0] == at_one) is expected for o in outs)
+            chk.ob("C13-L1", "%s -> classified %s (expected %s)" % (label, "/".join(flags), "linear" if expected else "non-linear"),
+                   ok, where=fn.ploc, function=fn.bn, construct="classification(%s)" % label,
                    detail="" if ok else "the classification expression is not two-sided: an "
                    "exponent in this interval can be treated as n = 1",
                    extra={"unit": fn.unit.name})
-        wr = writers_of(db, fn.unit.name, SPL, ["m_linear", "m_slope_exp"])
+        wr = writers_of(db, fn.unit.name, SPL, [k for k, _ in at_one] + ["m_slope_exp"])
         for f, ws in wr.items():
             ok = ws <= {"set_slope_exp"} and bool(ws)
             chk.ob("C13-L2", "%s written by %s" % (f, sorted(ws)), ok, where=fn.ploc,
